@@ -19,6 +19,11 @@ def check_c09(ctx):
         raise core.ToolError("MC_Convert did not print the standard definitions")
     docs = gen_docs(ctx, "MC_Doc_sim_ext.cfg", simulate=500 if quick else 10000)
     docs = [dict(text=d["text"]) for d in docs if d["pred"]["valid"]]
+    # ranges and references with their own quantity, in every unit family: the fraction fit and the per-ingredient loop
+    for v in ["3-6", "7.5-15", "1-2", "0.5-4", "2-16", "10-500", "1/3-2/3", "250"]:
+        for u in ["tsp", "tbsp", "cup", "ml", "l", "fl oz", "oz", "lb", "g", "kg", "pint", "cm", "inch"]:
+            docs.append(dict(text=f"@x{{{v}%{u}}}\n"))
+            docs.append(dict(text=f"@flour{{1000%g}} and @milk{{1%l}} then @&flour{{{v}%{u}}} or @&milk{{{v}%{u}}}\n"))
     pin = os.path.join(ctx.work, "c_in.ndjson")
     pstd = os.path.join(ctx.work, "std.json")
     pdocs = os.path.join(ctx.work, "c_docs.ndjson")
